@@ -81,7 +81,7 @@ def apply(spec, p, rng):
         parent[p[2][-1]] = [rng.choice(["t", "l"]), kids]
     elif kind == "item":
         f = rng.choice(["err", "unset"])
-        if f == "err" and (p[1] + p[2]) % 3 == 0:
+        if f == "err" and (p[1] + p[2]) % 2 == 0:
             f = "err_stop"  # the item's error is a StopIteration instance
         spec["faults"]["items"]["%d:%s" % (p[1], p[2])] = f
     elif kind == "flush":
